@@ -7,6 +7,7 @@ import (
 	"regexp"
 	"time"
 
+	"github.com/itchio/lake"
 	"verif/lib"
 )
 
@@ -255,6 +256,14 @@ func c07Run(c lib.Case, env *lib.Env) lib.Result {
 				shared.Source.Close()
 			}
 		}()
+	}
+	if c.ID%4 >= 2 {
+		// every pool (optimizer target/source, patcher target) hands a just-used reader back at an arbitrary position
+		lib.TargetPoolWrap = func(p lake.Pool) lake.Pool {
+			return &lib.StalePool{Inner: p, Rng: lib.NewRng(lib.Mix(s.PairSeed, 71))}
+		}
+		defer func() { lib.TargetPoolWrap = nil }()
+		res.Add("cases_over_stale_position_pools", 1)
 	}
 	for pi, op := range s.Params {
 		desc := fmt.Sprintf("pairSeed=%d shape=%s in=%s params=%+v out=%v sharedPools=%v run=%d", s.PairSeed, s.Shape, s.InComp, op, op.Comp, shared != nil, pi)
